@@ -813,6 +813,16 @@ REGRESSIONS = [
     _x('WIDTH "LPT2:",10'),
     # close.escaped.AttributeError@parports.py:do_print  (Session.close() with such a file open)
     _x('OPEN "LPT2:" FOR OUTPUT AS 1'),
+    # ---- second batch ----
+    # escaped.UnboundLocalError@files.py:_get_device_param  (DOS alias CON in RANDOM/APPEND mode)
+    _x('OPEN "CON" AS 3'),
+    # escaped.AttributeError@implementation.py:_input_file  (INPUT# on SCRN: opened FOR RANDOM)
+    _x('OPEN "SCRN:" FOR RANDOM AS #2', 'INPUT#2,A'),
+    # escaped.error@display.py:palette_using_  (negative start subscript)
+    _x('DIM R%(20)', 'PALETTE USING R%(-1)'),
+    # escaped.KeyError@program.py:edit  (pending EDIT prompt for a line that was deleted)
+    {'u': 'lines', 'cfg': {}, 'steps': [{'m': 'x', 't': '10 PRINT 1'}, {'m': 'x', 't': 'EDIT 10'},
+                                        {'m': 'x', 't': 'NEW'}, {'m': 'i', 't': '', 'k': 'SYSTEM\r'}]},
     # escaped.RecursionError@graphics.py:_draw  (DRAW substring that executes itself)
     _x('SCREEN 1', 'ZS$="XZS$;":DRAW ZS$'),
 ]
